@@ -191,7 +191,9 @@ def install_launchlog():
   def _name(kernel):
     return getattr(kernel, "key", None) or getattr(kernel, "__name__", "?")
 
-  def launch(kernel, dim, *a, **kw):
+  def _note(args, kwargs):
+    kernel = args[0] if args else kwargs.get("kernel")
+    dim = kwargs.get("dim", args[1] if len(args) > 1 else None)
     nm = _name(kernel)
     S.current_kernel = nm
     if S.log is not None:
@@ -202,20 +204,14 @@ def install_launchlog():
       S.log.append((nm, size))
       if S.names_permuted is not None and size >= 2 and S.mode != 0:
         S.names_permuted.add(nm.split("__")[0])
-    return orig_launch(kernel, dim, *a, **kw)
 
-  def launch_tiled(kernel, dim, *a, **kw):
-    nm = _name(kernel)
-    S.current_kernel = nm
-    if S.log is not None:
-      try:
-        size = int(np.prod(dim)) if not isinstance(dim, int) else int(dim)
-      except Exception:
-        size = -1
-      S.log.append((nm, size))
-      if S.names_permuted is not None and size >= 2 and S.mode != 0:
-        S.names_permuted.add(nm.split("__")[0])
-    return orig_tiled(kernel, dim, *a, **kw)
+  def launch(*args, **kwargs):
+    _note(args, kwargs)
+    return orig_launch(*args, **kwargs)
+
+  def launch_tiled(*args, **kwargs):
+    _note(args, kwargs)
+    return orig_tiled(*args, **kwargs)
 
   # launch_tiled calls wp.launch internally through the module attribute? It calls `launch` of
   # warp._src.context directly, so wrapping both public names does not double count.
